@@ -1064,13 +1064,13 @@ func dynNameOf(fn *ssa.Function, v ssa.Value) string {
 				stT := derefType(b.X.Type())
 				return structName(stT) + "." + stT.Underlying().(*types.Struct).Field(b.Field).Name()
 			case *ssa.Alloc:
-				return relName(fn) + "." + b.Comment
+				return relName(fn) + "." + aliasedLocal(fn, b.Comment)
 			case *ssa.FreeVar:
-				return relName(fn) + "." + b.Name()
+				return relName(fn) + "." + aliasedLocal(fn, b.Name())
 			}
 		}
 	case *ssa.Parameter:
-		return relName(fn) + "." + u.Name()
+		return relName(fn) + "." + aliasedLocal(fn, u.Name())
 	case *ssa.Field:
 		stT := u.X.Type()
 		return structName(stT) + "." + stT.Underlying().(*types.Struct).Field(u.Field).Name()
